@@ -143,6 +143,8 @@ class Runner(object):
                 steps = sim.a_add(action[1], action[2])
             elif k == "drop":
                 steps = sim.a_drop(action[1], action[2])
+            elif k == "accept_err":
+                steps = sim.a_accept_error(action[1], action[2] if len(action) > 2 else "ECONNABORTED")
             elif k == "sconn":
                 steps = [] if sim.a_stranger_connect(action[1]) is not None else None
             elif k == "ssend":
@@ -393,6 +395,18 @@ def directed():
                                                  ["dlv", 0, 0, 99, False, False], ["dlv", 0, 1, 99, False, False],
                                                  ["send", 0, ["ro", 0], 1, False, False], ["drop", 0, ["ro", 0]],
                                                  ["heal"]]))
+    # D77: the first frame of an unknown connection is an arbitrary picklable value; every one closes the connection,
+    # none raises, none is delivered, a following well-formed handshake on a NEW connection still works
+    for idx in range(len(tf.ARB)):
+        S.append(("handshake-arbitrary-%d" % idx, base,
+                  hs + [["ssend", 0, ["arb", idx]], ["ssend", 0, ["unhash", 9]], ["dlv", 0, 0, 1, False, False],
+                        ["dlv", 0, 0, 99, False, False], ["dlv", 0, 1, 99, False, False]]
+                  + ([["heal"]] if idx % 7 == 0 else [])))
+    # D78: accept() fails for one connection; the server keeps listening and the pair still connects
+    for err in ("ECONNABORTED", "EMFILE"):
+        S.append(("accept-fails-once-" + err, base, [["tick", 0, []], ["accept_err", 0, err], ["tick", 1, []],
+                                                     ["syn_ok*", 1, 0], ["accept_err", 0, err], ["accept", 0],
+                                                     ["cev*", 1, 0, False, False], ["dlv*", 1, 0, 0, 99], ["heal"]]))
     S.append(("handshake-util-reply-fails", base, hs + [["ssend", 0, ["util", 1]], ["dlv", 0, 0, 99, True, False],
                                                         ["heal"]]))
     S.append(("handshake-batch", base, hs + [["ssend", 0, ["util", 1]], ["ssend", 0, ["addr", 1]],
@@ -465,7 +479,7 @@ def directed():
 
 
 KINDS = [("adv", 12), ("tick", 14), ("syn_ok", 10), ("syn_err", 3), ("accept", 10), ("cev", 10), ("dlv", 22), ("frag", 5),
-         ("send", 10), ("err", 4), ("idle", 4), ("add", 2), ("drop", 2), ("sconn", 1.5), ("ssend", 4), ("restart", 1)]
+         ("send", 10), ("err", 4), ("idle", 4), ("add", 2), ("drop", 2), ("sconn", 1.5), ("ssend", 4), ("accept_err", 0.7), ("restart", 1)]
 
 
 def random_schedule(rng, runner, length):
@@ -536,12 +550,15 @@ def random_schedule(rng, runner, length):
             i = rng.randrange(n)
             if sim.members[i] and i not in sim.readonly:
                 act = ["drop", i, ["tcp", rng.choice(sorted(sim.members[i]))]]
+        elif k == "accept_err":
+            act = ["accept_err", rng.randrange(n), rng.choice(["ECONNABORTED", "EMFILE"])]
         elif k == "sconn":
             act = ["sconn", rng.randrange(n)]
         elif k == "ssend":
             c = [wi for wi, w in enumerate(sim.wires) if w.ends[0] in sim.strangers]
             if c:
-                mk = rng.choice([["addr", rng.randrange(n + 1)], ["addr", rng.randrange(n + 1)], ["readonly"],
+                mk = rng.choice([["arb", rng.randrange(len(tf.ARB))], ["arb", rng.randrange(len(tf.ARB))],
+                                 ["addr", rng.randrange(n + 1)], ["addr", rng.randrange(n + 1)], ["readonly"],
                                  ["util", 1], ["util", 0], ["hash", rng.randrange(5)], ["unhash", rng.randrange(5)],
                                  ["unhash", rng.randrange(5)]])
                 act = ["ssend", rng.choice(c), mk]
@@ -619,11 +636,12 @@ def shrink(repo, cfg, actions, pred, budget_s=8.0):
 FLOORS = ["tick", "accept", "connected", "connected.sendfail", "deliver.data", "deliver.eof", "deliver.rst",
           "deliver.dead", "connerr.soerr", "connerr.mask", "connerr.rst", "connerr.eof", "send.result=True",
           "send.result=False", "addNode", "dropNode", "restart.silent", "restart.fin", "poll_idle", "stranger",
-          "guard.stale-replaced", "guard.unhashable-raise", "guard.utility", "guard.readonly-handshake",
+          "guard.stale-replaced", "guard.utility", "guard.readonly-handshake",
           "guard.deliver", "guard.send.disconnects", "guard.outgoing-connected", "guard.drop.reports-disconnect",
           "guard.connerr.after-disconnect-state=0", "guard.connerr.after-disconnect-state=1",
           "guard.recv.after-disconnect-state=1", "guard.fd-reuse.stale-disconnect", "deliver.fragment",
-          "deliver.continues-partial-frame", "send.big", "send.from_state=1", "heal"]
+          "deliver.continues-partial-frame", "send.big", "send.from_state=1", "accept_error.ECONNABORTED", "stranger.arb.dict", "stranger.arb.list",
+          "stranger.arb.NoneType", "heal"]
 
 
 def run(ctx):
